@@ -17,7 +17,7 @@ run() { echo "\$ $*" >> $log; ( "$@" ) >> $log 2>&1; rc=$?; echo "[rc=$rc]" >> $
 demo() { # run the demo in the worktree; returns its rc
   if [ "$pkg" != "-" ]; then
     cp $src/demo_test.go $wt/$pkg/zz_demo_test.go
-    (cd $wt && run go test -count=1 -run "$pat" ./$pkg/); rc=$?
+    (cd $wt && run go test ${TAGS:+-tags $TAGS} -count=1 -run "$pat" ./$pkg/); rc=$?
     rm -f $wt/$pkg/zz_demo_test.go; return $rc
   else
     (cd $wt && run bash $src/demo/run.sh $wt); return $?
